@@ -12,7 +12,9 @@ for id in "${ids[@]}"; do
   if [ -f seeded/$id/patch.diff ]; then p=seeded/$id/patch.diff; else p=mutants/$id.diff; fi
   git -C $WT checkout -q -- . ; git -C $WT apply /verif/$p || { echo "$id: patch does not apply"; continue; }
   case $id in
-    c13-g|m1_global_memo|m2_racy_origins) eng=M ;;
+    c13-g|c13-an|m1_global_memo|m2_racy_origins) eng=M ;;
+    c13-ag|c13-aj) eng=W ;;
+    c13-af) eng=H,Hd,W ;;
     c13-j|c13-t|c13-ac|c13-ae) eng=Hs ;;
     *) eng=H,Hd ;;
   esac
